@@ -125,6 +125,17 @@ def gen_scenarios(cls, rng, tier):
         for (a, b, init) in rng.sample(picks, 260):
             out.append(scenario_case("r%s%d" % (cls, idx), cls, n, init, [[a], [b]]))
             idx += 1
+    # hubs: both nodes carry 65-70 edges in each direction before the threads start, so that anything a call does only for
+    # long adjacency lists (a second lock, a different scan) happens under the scheduler too.  Calls with a bounded number
+    # of critical sections only (no isolate / iteration: their schedules would explode with the list length).
+    hub_calls = [c for c in calls if c.split()[0] in ("con", "try", "dis", "conn", "deg", "ideg", "orph")]
+    hub_pairs = [("try 0 1 8", "try 1 0 8"), ("try 0 1 8", "con 1 0 7"), ("try 1 0 8", "dis 0 %d" % KEYS[1]), ("try 0 1 8", "try 0 1 8")]
+    hub_pairs += [tuple(rng.sample(hub_calls, 2)) for _ in range(40 if tier == "thorough" else 6)]
+    for (a, b) in hub_pairs:
+        m = rng.randint(65, 70)
+        init = [(0, 1)] * m + [(1, 0)] * m + ([(0, 0)] if rng.random() < 0.3 else [])
+        out.append(scenario_case("H%s%d" % (cls, idx), cls, n, init, [[a], [b]]))
+        idx += 1
     # 2 threads x 2 calls, 3 threads x 1 call, 3 nodes: sampled
     calls3 = calls_for(cls, 3)
     for i in range(4000 if tier == "thorough" else 120):
